@@ -302,13 +302,19 @@ def evaluate(case):
 
     def call_dp(arr):
         ex = {"image": torch.zeros((1, 1, H, W), dtype=torch.float32), "instances": T(arr)}
+        # for half of the cases the judged example sits behind a leading example of another image size
+        # (one pass over a mixed-resolution stream): per-pass state must not leak between examples
+        lead_on = (int(H) + int(W) + int(round(float(sigma) * 10))) % 2 == 1
+        stream = [ex]
+        if lead_on:
+            stream = [{"image": torch.zeros((1, 1, max(int(stride), int(H) // 2), int(W) + 3 * int(stride)), dtype=torch.float32), "instances": T(arr)}, ex]
         got = list(
             emod.PartAffinityFieldsGenerator(
-                [ex], sigma=sigma, output_stride=stride, edge_inds=edge_t, flatten_channels=flatten
+                stream, sigma=sigma, output_stride=stride, edge_inds=edge_t, flatten_channels=flatten
             )
         )
-        assert len(got) == 1
-        return got[0]["part_affinity_fields"]
+        assert len(got) == len(stream)
+        return got[-1]["part_affinity_fields"]
 
     check_call(res, "func", call_func, P_all, edges, case)
     check_call(res, "dp", call_dp, P_all, edges, case)
